@@ -152,8 +152,7 @@ def sync_lock(crate):
     """The harness crates resolve exactly the versions /repo's lock file pins."""
     src = os.path.join(REPO, "Cargo.lock")
     dst = os.path.join(crate, "Cargo.lock")
-    if not os.path.exists(dst) or os.environ.get("VERIF_RELOCK"):
-        shutil.copyfile(src, dst)
+    shutil.copyfile(src, dst)
 
 
 def kani_cmd(target_dir, harness=None, extra=()):
